@@ -641,6 +641,34 @@ class OExec(sx.Exec):
                 return rest(env)
         return super().block(stmts, i, env, k, ret)
 
+    def loop(self, env, s, rest):
+        """as symexec's, but the index list of a for loop becomes a Definition of its own (g_<unit>_for<k>_order)"""
+        u = self.u
+        if s[0] not in ("for_up", "for_down"):
+            return super().loop(env, s, rest)
+        lo, hi = (s[2], s[3]) if s[0] == "for_up" else (s[3], s[2])
+        save = u.reads
+        u.reads = None
+        a, b = self.ex(lo, env), self.ex(hi, env)
+        u.reads = save
+        bs = sx.coerce(b, "N", self.what)
+        if a[0] == "L" and a[2] == 0:
+            sq, dsq, sig, args = "(seq 0 %s)" % bs, "(seq 0 a_hi)", "(a_hi : nat)", [bs]
+        else:
+            as_ = sx.coerce(a, "N", self.what)
+            sq, dsq, sig, args = "(seq %s (Nat.sub %s %s))" % (as_, bs, as_), "(seq a_lo (Nat.sub a_hi a_lo))", "(a_lo : nat) (a_hi : nat)", [as_, bs]
+        order, dorder = (sq, dsq) if s[0] == "for_up" else ("(rev %s)" % sq, "(rev %s)" % dsq)
+        gstep = "%s_for%d_step" % (u.scope, u.loops.get("for", 0) + 1)
+        txt = super().loop(env, s, rest)
+        if self.dry or not any(d[0] == gstep for d in u.defs):
+            return txt
+        oname = gstep[:-5] + "_order"
+        pat = ") %s (" % order
+        if pat not in txt:
+            self.oog("index list of the loop not found in its translation")
+        u.defs.append((oname, sig + " : list nat", dorder, "the indices in the order the for loop visits them"))
+        return txt.replace(pat, ") (%s %s) (" % (oname, " ".join(args)), 1)
+
     def otuple(self, env, s, rest):
         if s[2] != [("id", "dim")] or len(s[1]) != len(self.u.dim_order):
             self.oog("structured binding of something else than `dim`")
